@@ -196,7 +196,12 @@ class BaseLoader(ABC):
         # resource is not accessible.
         url = str(url)
         if url.startswith("package:"):
-            _, package, filename = url.split(":", 2)
+            parts = url.split(":", 2)
+            if len(parts) != 3:
+                raise ZConfig.ConfigurationError(
+                    "malformed package URL %r: expected"
+                    " package:<package>:<path>" % url, url)
+            _, package, filename = parts
             file = openPackageResource(package, filename)
         else:
             try:
